@@ -30,10 +30,72 @@ def gtok(v):
     return fstr(v[0]) + ((',' + fstr(v[1])) if v[1] != 0 else '')
 
 
+PROP_FILES = ['Lcapy/Props/C14.lean', 'Lcapy/Props/C14SS.lean', 'Lcapy/Props/C14Imm.lean', 'Lcapy/Props/C14Conv.lean',
+              'Lcapy/Props/C14Anchor.lean']
+
+
+def sin_coeffs(S, expr, tsym, ws):
+    """decompose a real time-domain expression into {w: (a, b)} with expr = sum_w a cos(w t) + b sin(w t) (+ 'dc': c);
+    exact rationals only; None when something else is left over"""
+    e = S.expand(expr)
+    # angle addition only for a constant phase inside the argument (never expand cos(7 t) into powers of cos t)
+    reps = {}
+    for at in e.atoms(S.cos, S.sin):
+        arg = at.args[0]
+        try:
+            pl = S.Poly(arg, tsym)
+        except S.PolynomialError:
+            return None
+        if pl.degree() != 1:
+            continue
+        W_, c_ = pl.all_coeffs()
+        if c_ != 0:
+            if at.func == S.cos:
+                reps[at] = S.cos(W_ * tsym) * S.cos(c_) - S.sin(W_ * tsym) * S.sin(c_)
+            else:
+                reps[at] = S.sin(W_ * tsym) * S.cos(c_) + S.cos(W_ * tsym) * S.sin(c_)
+    if reps:
+        e = S.expand(e.xreplace(reps))
+    out = {}
+    rest = e
+    for w in ws:
+        W = S.Rational(w.numerator, w.denominator)
+        cw, sw = S.cos(W * tsym), S.sin(W * tsym)
+        a, b = e.coeff(cw), e.coeff(sw)
+        rest = rest - a * cw - b * sw
+        try:
+            a, b = common.frac(S.nsimplify(S.simplify(a))), common.frac(S.nsimplify(S.simplify(b)))
+        except ValueError:
+            return None
+        out[w] = (a, b)
+    rest = S.simplify(S.expand(rest))
+    if rest.has(tsym):
+        return None
+    try:
+        out['dc'] = common.frac(S.nsimplify(rest))
+    except ValueError:
+        return None
+    return out
+
+
 def run(chk, replay=None):
-    broken = chk.lean(['Lcapy/Props/C14.lean'],
+    from translate import tx_acdc
+    text, tinfo = tx_acdc.generate(common.REPO)
+    gen_path = os.path.join(common.LEAN, 'Lcapy', 'Generated', 'ACTable.lean')
+    with common.LakeLock():
+        if not os.path.exists(gen_path) or open(gen_path).read() != text:
+            with open(gen_path, 'w') as f:
+                f.write(text)
+    chk.coverage['translator'] = {'status': 'ok' if not tinfo['unparsed'] else 'partial', 'unparsed': tinfo['unparsed'],
+                                  'funcPhase': tinfo['funcPhase'], 'sumBranches': tinfo['sumBranches'],
+                                  'sumX': tinfo['sumX'], 'sumY': tinfo['sumY'], 'fromTime': tinfo['fromTime'],
+                                  'timeForm': tinfo['timeForm'], 'rmsForm': tinfo['rmsForm']}
+    broken = chk.lean(PROP_FILES,
                       helper_files=['Lcapy/Proofs/Linear.lean', 'Lcapy/Proofs/MNA.lean', 'Lcapy/Model/MNA.lean',
-                                    'Lcapy/Model/Netlist.lean', 'Lcapy/Model/Sources.lean', 'Lcapy/Spec/Laws.lean'],
+                                    'Lcapy/Model/Netlist.lean', 'Lcapy/Model/Sources.lean', 'Lcapy/Spec/Laws.lean',
+                                    'Lcapy/Spec/LawsTD.lean', 'Lcapy/Spec/LawsTDExec.lean', 'Lcapy/Model/Cx.lean', 'Lcapy/Model/Phasor.lean',
+                                    'Lcapy/Model/ACConv.lean', 'Lcapy/Model/ACImmittance.lean', 'Lcapy/Generated/ACTable.lean',
+                                    'Lcapy/Proofs/Cx.lean', 'Lcapy/Proofs/Phasor.lean', 'Lcapy/Driver/C14.lean'],
                       leanchecker=(chk.tier == 'thorough'))
     drv = chk.get_driver()
     import lcapy
@@ -49,6 +111,7 @@ def run(chk, replay=None):
                             'and Lcapy returns phasors; distinct by netlist text + frequencies')
     disagreements = []
     n_cex = 0
+    ss_budget = [14 if quick else 250]
 
     def sval(e, rep=None):
         x = e.sympy if hasattr(e, 'sympy') else S.sympify(e)
@@ -105,6 +168,7 @@ def run(chk, replay=None):
             chk.case(('err', tuple(lines)), False)
             continue
         nontriv = True
+        bodies = {}
         for w in freqs:
             an = 'ac %s' % fstr(w)
             mlines = []
@@ -115,6 +179,7 @@ def run(chk, replay=None):
                     ml = ' '.join(tk)
                 mlines.append(ml)
             body = ' || '.join(mlines)
+            bodies[w] = body
             rep = drv.ask1('mna.solve %s || %s' % (an, body))
             if not rep.startswith('ok'):
                 chk.count('model', rep[:30])
@@ -234,6 +299,62 @@ def run(chk, replay=None):
                             break
                     except Exception as e:   # noqa
                         chk.count('lcapy-error', 'time:' + type(e).__name__)
+        # (f) the TIME-DOMAIN signals Lcapy reports (node voltages v(t), branch currents i(t); for several frequencies their
+        #     sum) must satisfy the time-domain laws of the circuit at EVERY frequency: KCL, i = C dv/dt, v = L di/dt + M di'/dt,
+        #     source waveforms -- judged by the Lean spec `LawsTD (sinusOps w)` (Props/C14SS: steady_state_iff_phasor,
+        #     multi_frequency_iff) on the (a, b) coefficients of a cos(wt) + b sin(wt) extracted from Lcapy's expressions
+        if nontriv and ss_budget[0] > 0:
+            ss_budget[0] -= 1
+            try:
+                with common.time_limit(40 if quick else 90):
+                    rsub = {S.Symbol(n_): S.Rational(v_.numerator, v_.denominator) for n_, v_ in case['subs'].items()}
+
+                    def tsub(e):
+                        e = e.sympy if hasattr(e, 'sympy') else S.sympify(e)
+                        return e.subs({q: rsub[S.Symbol(q.name)] for q in e.free_symbols if S.Symbol(q.name) in rsub})
+                    vco = {}
+                    for n in cct.node_list:
+                        if str(n) == '0':
+                            continue
+                        vco[str(n)] = sin_coeffs(S, tsub(cct[n].V(tt)), tt.sympy, freqs)
+                    jco = {}
+                    for w in freqs:
+                        wk = [kk for kk in keys if not isinstance(kk, str) and S.simplify(S.sympify(kk) - S.Rational(w.numerator, w.denominator)) == 0][0]
+                        mna_w = cct.sub[wk].mna
+                        for bn in mna_w.unknown_branch_currents:
+                            co = sin_coeffs(S, tsub(mna_w.Idict[bn].time()), tt.sympy, [w])
+                            jco.setdefault(bn, {})[w] = None if co is None else co[w]
+                for w in freqs:
+                    if any(c_ is None for c_ in vco.values()) or any(jco[b_].get(w) is None for b_ in jco):
+                        chk.count('oracle', 'steady-state:not-a-rational-sinusoid')
+                        continue
+                    vs_t = ' '.join('%s=%s,%s' % (n, fstr(c_[w][0]), fstr(c_[w][1])) for n, c_ in vco.items())
+                    js_t = ' '.join('%s=%s,%s' % (b_, fstr(jco[b_][w][0]), fstr(jco[b_][w][1])) for b_ in jco if w in jco[b_])
+                    verdict = drv.ask1('ss.laws %s || %s || V %s J %s' % (fstr(w), bodies[w], vs_t, js_t))
+                    if verdict == 'ok':
+                        chk.count('oracle', 'steady-state-laws-ok:%d-frequencies' % len(freqs))
+                    elif verdict.startswith(('error', 'undef', 'bad')):
+                        chk.count('oracle', 'steady-state:' + verdict[:40])
+                    else:
+                        n_cex += 1
+                        chk.counterexample({'kind': 'steady-state-laws', 'clause': verdict.split()[0]},
+                                           {'input': {'netlist': llines, 'omega': fstr(w), 'frequencies': [fstr(x_) for x_ in freqs],
+                                                      'subs': {k_: fstr(v) for k_, v in case['subs'].items()}},
+                                            'lcapy': {'v(t) as a,b of a cos(wt)+b sin(wt)': vs_t, 'i(t)': js_t}, 'spec': verdict},
+                                           'the time-domain signals Lcapy reports violate the time-domain %s at omega = %s' % (verdict, w))
+                        break
+                    # a constant left over in a pure ac circuit is not part of any steady state
+                    if any(c_['dc'] != 0 for c_ in vco.values()):
+                        n_cex += 1
+                        chk.counterexample({'kind': 'steady-state-laws', 'clause': 'dc-offset'},
+                                           {'input': {'netlist': llines}, 'lcapy': {n: fstr(c_['dc']) for n, c_ in vco.items()},
+                                            'spec': 'no constant term in the response to sinusoidal sources'},
+                                           'time-domain node voltage has a constant offset')
+                        break
+            except common.TimeLimit:
+                chk.count('lcapy-error', 'steady-state:time-limit')
+            except Exception as e:   # noqa
+                chk.count('lcapy-error', 'steady-state:' + type(e).__name__ + ':' + str(e)[:40])
         chk.case((tuple(llines),), nontriv)
         if nontriv:
             chk.sample({'netlist': llines, 'frequencies': [fstr(w) for w in freqs]})
@@ -385,6 +506,241 @@ def run(chk, replay=None):
             chk.counterexample({'kind': 'phasor-roundtrip'},
                                {'input': {'a': fstr(a), 'b': fstr(b), 'omega': fstr(w)}, 'lcapy': str(back), 'spec': 'sinusoid -> phasor -> sinusoid is the identity'},
                                'phasor round trip changes the sinusoid')
+
+
+    # (g) ACChecker branch table (lcapy/acdc.py) against the Lean interpreter of the GENERATED table: single terms
+    #     A f(wt + phi) (f = cos / sin, A of either sign, phi with rational cos / sin) and sums of two terms in every branch
+    #     (quadrature parts cancel -> phase 0 with an amplitude of either sign, in-phase parts cancel -> phase pi/2, generic)
+    from lcapy.acdc import ACChecker
+    ts = tt.sympy
+    angles = [(S.Integer(0), Fraction(1), Fraction(0)), (S.atan(S.Rational(4, 3)), Fraction(3, 5), Fraction(4, 5)),
+              (-S.atan(S.Rational(4, 3)), Fraction(3, 5), Fraction(-4, 5)), (S.atan(S.Rational(5, 12)), Fraction(12, 13), Fraction(5, 13)),
+              (S.pi / 2, Fraction(0), Fraction(1)), (S.pi, Fraction(-1), Fraction(0))]
+
+    def rect_of(amp, phase, sub):
+        x = S.nsimplify(S.simplify((amp * S.cos(phase)).subs(sub)))
+        y = S.nsimplify(S.simplify((amp * S.sin(phase)).subs(sub)))
+        return (common.frac(x), common.frac(y))
+
+    for k in range(nconv // 2):
+        w = Fraction(rng.randint(1, 9), rng.randint(1, 3))
+        W = S.Rational(w.numerator, w.denominator)
+        a = Fraction(rng.randint(1, 9), rng.randint(1, 4)) * rng.choice([1, -1])
+        b = Fraction(rng.randint(1, 9), rng.randint(1, 4)) * rng.choice([1, -1])
+        (ph1, c1, s1), (ph2, c2, s2) = rng.choice(angles), rng.choice(angles)
+        f1, f2 = rng.choice(['cos', 'sin']), rng.choice(['cos', 'sin'])
+        fn = {'cos': S.cos, 'sin': S.sin}
+        form = k % 6
+        try:
+            if form == 0:       # one term
+                e = S.Rational(a.numerator, a.denominator) * fn[f1](W * ts + ph1)
+                chk.case(('acchecker-term', f1, a, str(ph1), w), True)
+                chk.count('conversion', 'acchecker-term-' + f1)
+                ck = ACChecker(e, ts)
+                got = rect_of(ck.amp, ck.phase, {}) if ck.is_ac else None
+                rep = drv.ask1('ph.term %s %s %s %s' % (f1, fstr(a), fstr(c1), fstr(s1))).split()
+                want = (Fraction(rep[0]), Fraction(rep[1]))
+                desc = str(e)
+                ok = got == want and S.simplify(ck.omega - W) == 0
+            else:
+                if form in (1, 2):      # same function, same phase: one of the parts cancels identically
+                    f2, ph2, c2, s2 = f1, ph1, c1, s1
+                elif form == 3:         # A f(wt + phi) - A f(wt - phi)
+                    f2, ph2, c2, s2, b = f1, -ph1, c1, -s1, -a
+                # symbolic amplitudes keep the two terms apart (SymPy would merge numeric like terms)
+                e = A_ * fn[f1](W * ts + ph1) + (B_ if form != 3 else -A_) * fn[f2](W * ts + ph2)
+                sub = {A_: S.Rational(a.numerator, a.denominator), B_: S.Rational(b.numerator, b.denominator)}
+                chk.case(('acchecker-sum', form, f1, f2, a, b, str(ph1), str(ph2), w), True)
+                ck = ACChecker(e, ts)
+                if not ck.is_ac:
+                    chk.count('conversion', 'acchecker-sum:not-recognised')
+                    continue
+                got = rect_of(ck.amp, ck.phase, sub)
+                # the unit vector of each term's phase as the table sees it: phi + funcPhase(f)
+                t1 = drv.ask1('ph.term %s 1 %s %s' % (f1, fstr(c1), fstr(s1))).split()
+                t2 = drv.ask1('ph.term %s 1 %s %s' % (f2, fstr(c2), fstr(s2))).split()
+                rep = drv.ask1('ph.sum %s %s %s %s %s %s' % (fstr(a), t1[0], t1[1], fstr(b), t2[0], t2[1])).split()
+                want = (Fraction(rep[1]), Fraction(rep[2]))
+                # which branch did the code take?  phase 0 / pi/2 are the two special branches
+                php = S.simplify(ck.phase)
+                gbranch = 'y0' if php == 0 else ('x0' if php == S.pi / 2 else 'gen')
+                chk.count('conversion', 'acchecker-sum-branch-' + rep[0])
+                desc = str(e)
+                ok = got == want
+                # the branch itself is compared when the cancellation is structural (forms 1-3), i.e. the same for the
+                # symbolic expression the code sees and for the numbers the model sees
+                if ok and form in (1, 2, 3) and gbranch != rep[0]:
+                    ok = False
+            chk.coverage['correspondence']['compared'] += 1
+            if not ok:
+                n_cex += 1
+                chk.counterexample({'kind': 'sinusoid-to-phasor', 'form': 'acchecker-term' if form == 0 else 'acchecker-sum'},
+                                   {'input': {'expression': desc, 'A_': fstr(a), 'B_': fstr(b)},
+                                    'lcapy': {'amp': str(ck.amp), 'phase': str(ck.phase), 'rect': str(got)},
+                                    'model': {'reply': ' '.join(rep)},
+                                    'spec': 'phasor of a sum of same-frequency terms = sum of the phasors; A cos(wt+phi) <-> A e^{j phi}, sin <-> cos shifted by -pi/2'},
+                                   'ACChecker amplitude / phase differ from the table semantics')
+        except (Exception, common.TimeLimit) as ex:   # noqa
+            chk.count('lcapy-error', 'acchecker:' + type(ex).__name__ + ':' + str(ex)[:40])
+
+    # (h) magnitude / phase / rms / abs / time() of phasors (Gaussian rationals, some with a rational magnitude),
+    #     judged by the Lean predicate `ph.polar`: M^2 = |P|^2, M (cos phi, sin phi) = (re, im), rms^2 = |P|^2 / 2
+    pyth = [(3, 4), (5, 12), (8, 15), (4, 3), (1, 0), (0, 1), (1, 1), (2, 1)]
+    for k in range(nconv // 4):
+        x0, y0 = rng.choice(pyth)
+        sc = Fraction(rng.randint(1, 9), rng.randint(1, 3))
+        re_, im_ = sc * x0 * rng.choice([1, -1]), sc * y0 * rng.choice([1, -1])
+        w = Fraction(rng.randint(1, 9), rng.randint(1, 3))
+        chk.case(('polar', re_, im_, w), True)
+        chk.count('conversion', 'magnitude-phase-rms')
+        try:
+            with common.time_limit(30):
+                P = lcapy.phasor(S.Rational(re_.numerator, re_.denominator) + S.Rational(im_.numerator, im_.denominator) * S.I,
+                                 omega=S.Rational(w.numerator, w.denominator))
+                M, PH, RM = P.magnitude.sympy, P.phase.sympy, P.rms().sympy
+                m2 = common.frac(S.nsimplify(S.simplify(M ** 2)))
+                xx = common.frac(S.nsimplify(S.simplify(M * S.cos(PH))))
+                yy = common.frac(S.nsimplify(S.simplify(M * S.sin(PH))))
+                r2 = common.frac(S.nsimplify(S.simplify(RM ** 2)))
+                ab2 = common.frac(S.nsimplify(S.simplify(abs(P).sympy ** 2)))
+                tco = sin_coeffs(S, P.time().sympy, ts, [w])
+        except (Exception, common.TimeLimit) as ex:   # noqa
+            chk.count('lcapy-error', 'polar:' + type(ex).__name__ + ':' + str(ex)[:40])
+            continue
+        verdict = drv.ask1('ph.polar %s %s | %s %s %s %s' % (fstr(re_), fstr(im_), fstr(m2), fstr(xx), fstr(yy), fstr(r2)))
+        tm = drv.ask1('ph.toTime %s %s' % (fstr(re_), fstr(im_))).split()
+        bad = None
+        if verdict != 'true' or ab2 != m2:
+            bad = 'magnitude %s, phase %s, rms %s, abs^2 %s' % (M, PH, RM, ab2)
+        elif tco is None or (fstr(tco[w][0]), fstr(tco[w][1])) != (tm[0], tm[1]):
+            bad = 'time() = %s, expected %s cos + %s sin' % (P.time(), tm[0], tm[1])
+        chk.coverage['correspondence']['compared'] += 1
+        if bad:
+            n_cex += 1
+            chk.counterexample({'kind': 'phasor-polar'},
+                               {'input': {'re': fstr(re_), 'im': fstr(im_), 'omega': fstr(w)}, 'lcapy': bad,
+                                'spec': '|P|^2 = re^2 + im^2, |P| e^{j phase} = P, rms^2 = |P|^2/2, time() = re cos(wt) - im sin(wt)'},
+                               'magnitude / phase / rms / time() of a phasor are inconsistent with the phasor')
+
+    # (i) phasor-domain immittance of one-port trees: net.Z(j w), net.Y(j w) and the generic phasor ratio Z(j omega)
+    #     evaluated at omega = w, against the Lean textbook model `acImp` / `acAdm` (= the Laplace model at s = jw by
+    #     Props/C14Imm net_imp_at_jw / net_adm_at_jw; the driver evaluates both and they must agree as well)
+    from lcapy import j as jj, omega as om
+
+    def imm_tree(depth):
+        kind = rng.choice(['S', 'P']) if depth > 0 else 'leaf'
+        if kind == 'leaf' or rng.random() < 0.35:
+            ty = rng.choice(['R', 'R', 'L', 'C', 'G'])
+            v = Fraction(rng.randint(1, 9), rng.randint(1, 3))
+            V = S.Rational(v.numerator, v.denominator)
+            if ty == 'R':
+                return lcapy.R(V), ['R', fstr(v)]
+            if ty == 'G':
+                return lcapy.G(V), ['G', fstr(v)]
+            if ty == 'L':
+                return lcapy.L(V), ['L', fstr(v), '-']
+            return lcapy.C(V), ['C', fstr(v), '-']
+        n = rng.randint(2, 3)
+        parts = [imm_tree(depth - 1) for _ in range(n)]
+        net = parts[0][0]
+        for q in parts[1:]:
+            net = (net + q[0]) if kind == 'S' else (net | q[0])
+        return net, [kind, str(n)] + [tk for q in parts for tk in q[1]]
+
+    for k in range(10 if quick else 150):
+        w = Fraction(rng.randint(1, 9), rng.randint(1, 3))
+        W = S.Rational(w.numerator, w.denominator)
+        try:
+            with common.time_limit(30):
+                net, toks = imm_tree(2)
+                if toks[0] not in 'SP':
+                    continue
+                zg = common.gauss_rational(S.simplify(net.Z(jj * W).sympy))
+                yg = common.gauss_rational(S.simplify(net.Y(jj * W).sympy))
+                zo = common.gauss_rational(S.simplify(net.Z(jj * om).sympy.subs(om.sympy, W)))
+        except (Exception, common.TimeLimit) as ex:   # noqa
+            chk.count('lcapy-error', 'immittance:' + type(ex).__name__ + ':' + str(ex)[:40])
+            continue
+        tree = ' '.join(toks)
+        chk.case(('immittance', tree, w), True)
+        chk.count('conversion', 'oneport-immittance-at-jw')
+        reps = {q: drv.ask1('%s %s %s' % (q, fstr(w), tree)).split() for q in ('ac.imp', 'ac.adm', 'ac.zs', 'ac.ys')}
+        if any('undef' in r or len(r) != 2 for r in reps.values()):
+            chk.count('model', 'immittance-undefined')
+            continue
+        mz = (Fraction(reps['ac.imp'][0]), Fraction(reps['ac.imp'][1]))
+        my = (Fraction(reps['ac.adm'][0]), Fraction(reps['ac.adm'][1]))
+        chk.coverage['correspondence']['compared'] += 1
+        if reps['ac.imp'] != reps['ac.zs'] or reps['ac.adm'] != reps['ac.ys']:
+            chk.coverage['correspondence']['disagreements'] += 1
+            disagreements.append({'oneport': tree, 'omega': fstr(w), 'model': reps})
+        if None in (zg, yg, zo) or zg != mz or yg != my or zo != mz:
+            n_cex += 1
+            chk.counterexample({'kind': 'immittance-at-jw'},
+                               {'input': {'oneport': str(net), 'tree': tree, 'omega': fstr(w)},
+                                'lcapy': {'Z(jw)': str(zg), 'Y(jw)': str(yg), 'Z(j omega)|omega=w': str(zo)},
+                                'model': {'Z': gtok(mz), 'Y': gtok(my)},
+                                'spec': 'phasor-domain immittance = s-domain immittance at s = j omega (R, j w L, 1/(j w C), series / parallel)'},
+                               'one-port immittance at j omega differs from the phasor-domain value')
+
+    # (j) omega = 0 is the DC analysis: the same circuit with `ac A 0 0` sources and with `dc A` sources; Lean: the model at
+    #     s = j 0 against the model's dc analysis (Props/C14SS ac_at_zero_is_dc)
+    for k in range(5 if quick else 60):
+        case = gen_netlist.random_case(rng, analysis='dc', max_nodes=5)
+        if case['subs'] or any(l.split()[0][0] in 'KW' or l.split()[0][:2] in ('TR', 'AM', 'GY', 'TF') for l in case['lines']):
+            continue
+        dc_l, ac_l, ac_m = [], [], []
+        for ml in case['lines']:
+            tk = ml.split()
+            if tk[0][0] in 'VI' and tk[0][1:].isdigit():
+                val = tk[-1]
+                dc_l.append('%s %s %s dc %s' % (tk[0], tk[1], tk[2], val))
+                ac_l.append('%s %s %s ac %s 0 0' % (tk[0], tk[1], tk[2], val))
+                ac_m.append('%s %s %s ac %s' % (tk[0], tk[1], tk[2], val))
+            else:
+                dc_l.append(ml)
+                ac_l.append(ml)
+                ac_m.append(ml)
+        r_dc = drv.ask1('mna.solve dc || ' + ' || '.join(dc_l))
+        r_ac = drv.ask1('mna.solve ac 0 || ' + ' || '.join(ac_m))
+        chk.case(('omega0', tuple(dc_l)), r_dc.startswith('ok'))
+        if not r_dc.startswith('ok') or not r_ac.startswith('ok'):
+            chk.count('model', 'omega0:' + (r_dc if not r_dc.startswith('ok') else r_ac)[:20])
+            if r_dc.startswith('ok') != r_ac.startswith('ok'):
+                chk.coverage['correspondence']['disagreements'] += 1
+                disagreements.append({'netlist': dc_l, 'model dc': r_dc[:60], 'model ac 0': r_ac[:60]})
+            continue
+        m_dc, m_ac = parse_reply(r_dc), parse_reply(r_ac)
+        chk.coverage['correspondence']['compared'] += 1
+        if m_dc['V'] != m_ac['V'] or m_dc['J'] != m_ac['J']:
+            chk.coverage['correspondence']['disagreements'] += 1
+            disagreements.append({'netlist': dc_l, 'model dc': r_dc[:80], 'model ac 0': r_ac[:80]})
+        try:
+            with common.time_limit(60):
+                c_dc = lcapy.Circuit('\n'.join(dc_l))
+                c_ac = lcapy.Circuit('\n'.join(ac_l))
+                bad = None
+                for n in c_dc.node_list:
+                    if str(n) == '0':
+                        continue
+                    v_dc = common.gauss_rational(S.simplify(c_dc[n].v.sympy))
+                    v_ac = common.gauss_rational(S.simplify(c_ac[n].v.sympy))
+                    chk.count('oracle', 'omega-zero-is-dc-checked')
+                    if v_dc is None or v_ac is None:
+                        continue
+                    if v_dc != v_ac or v_dc != m_dc['V'].get(str(n), v_dc):
+                        bad = (str(n), v_dc, v_ac, m_dc['V'].get(str(n)))
+                        break
+        except (Exception, common.TimeLimit) as ex:   # noqa
+            chk.count('lcapy-error', 'omega0:' + type(ex).__name__ + ':' + str(ex)[:40])
+            continue
+        if bad:
+            n_cex += 1
+            chk.counterexample({'kind': 'omega-zero-is-dc'},
+                               {'input': {'dc netlist': dc_l, 'ac netlist': ac_l, 'node': bad[0]},
+                                'lcapy': {'dc': str(bad[1]), 'ac at omega=0': str(bad[2])}, 'model': str(bad[3]),
+                                'spec': 'phasor analysis at omega = 0 is the dc analysis'},
+                               'node voltage at omega = 0 differs from the dc analysis')
 
     chk.coverage['correspondence']['samples_of_disagreement'] = disagreements[:5]
     if broken and n_cex == 0:
